@@ -1042,7 +1042,7 @@ PROPS = {
                    "`rdata` and `reader` streams each run).",
         streams=[dict(name="rdata"), dict(name="reader", quick=8000),
                  # the iterator API reads the "next record" too: ground truth of where every record starts
-                 dict(name="truth", quick=5000), dict(name="views", quick=5000)],
+                 dict(name="truth", quick=5000, thorough=100000), dict(name="views", quick=5000, thorough=100000)],
         explanation="C04: rdata_exact / raw_exact / next_after_data / rdata_local / data_local theorems; stream `rdata` drives read_rr_data::<D> for the 17 D "
                     "through the hook with RDLENGTH deltas.",
     ),
@@ -1357,7 +1357,7 @@ PROPS = {
         streams=[dict(name="name"), dict(name="names", quick=15000),
                  # comparing two names in place follows the same pointers: its verdict must be the verdict on
                  # the two expanded label sequences (prefix-related names, shared suffixes, root)
-                 dict(name="nameeq", quick=6000, impl_oracle=nameeq_oracle)],
+                 dict(name="nameeq", quick=6000, thorough=200000, impl_oracle=nameeq_oracle)],
         explanation="Theorems: soundness of read/skip/iterate against the RFC 1035 §4.1.4 expansion relation incl. resume "
                     "position, the four rejection theorems, and completeness for backward-only (conforming) layouts; "
                     "correspondence: stream `name` through all four instantiations of labels_loop!.",
